@@ -1434,7 +1434,7 @@ class Quaternion(np.ndarray):
         False
 
         """
-        return np.allclose(self.A, np.array([1.0, 0.0, 0.0, 0.0]))
+        return np.allclose([self.w, self.x, self.y, self.z], [1.0, 0.0, 0.0, 0.0])
 
     def normalize(self) -> None:
         """Normalize the quaternion."""
